@@ -101,6 +101,9 @@ type Case struct {
 	Seed  int64      `json:"seed"` // math/rand seed used for this case
 	// NoModel: durations too large for the model's enumeration of rand values (monitors only)
 	NoModel bool `json:"no_model,omitempty"`
+	// PanicModel (with NoModel): the panic outcome of the script's NewJitterTicker / first Reset is still
+	// compared with the model (`newp` / `resetp` of the driver: no state set, no enumeration)
+	PanicModel bool `json:"panic_model,omitempty"`
 }
 
 func (c Case) String() string {
@@ -324,7 +327,7 @@ type paramSet struct {
 func validParams(d, j int64) bool { return d > 0 && j >= 0 && j < d }
 
 // sumOverflows: d + jitter does not fit into a Duration (for documented arguments: jitter > MaxInt64 - d).
-// That is the input class of D20: the largest interval the ticker may draw, d + jitter, is not
+// That is the input class of D21: the largest interval the ticker may draw, d + jitter, is not
 // representable, and for jitter >= 2^62 neither is 2*jitter + 1.
 func sumOverflows(d, j int64) bool { return d > 0 && j >= 0 && j > math.MaxInt64-d }
 
@@ -419,7 +422,7 @@ func runTicker(t *testing.T, steps []TStep, seed int64) tickerRun {
 					}
 					if minGap >= 0 && ts-lastTick < minGap {
 						fp := tickerParams(pd, pj)
-						if ovf { // one of the parameter sets that can have been in force is of the D20 class
+						if ovf { // one of the parameter sets that can have been in force is of the D21 class
 							fp["d_plus_jitter_overflows"] = true
 						}
 						setFail("ticker-spacing", fp,
@@ -1036,7 +1039,7 @@ func bigTicker(r *vlib.Rand) []TStep {
 }
 
 // extremePairs: documented arguments (d > 0, 0 <= jitter < d) at the int64 boundaries: 2*jitter + 1 and
-// d + jitter at, just below and beyond MaxInt64 (D20).
+// d + jitter at, just below and beyond MaxInt64 (D21).
 func extremePairs() [][2]int64 {
 	const p62 = int64(1) << 62
 	return [][2]int64{
@@ -1234,6 +1237,12 @@ func (x *runner) do(c Case, tag string) {
 		}
 		x.res.Fail(vlib.Failure{Source: "monitor", Kind: f2.kind, Params: f2.params, What: f2.what, Case: c})
 	}
+	if c.NoModel && c.PanicModel && x.model != nil {
+		if pl := panicLines(c, lines); len(pl) > 0 {
+			x.mCases = append(x.mCases, c)
+			x.mLines = append(x.mLines, pl)
+		}
+	}
 	if !c.NoModel && x.model != nil {
 		x.mCases = append(x.mCases, c)
 		x.mLines = append(x.mLines, lines)
@@ -1241,6 +1250,27 @@ func (x *runner) do(c Case, tag string) {
 			x.flushModel()
 		}
 	}
+}
+
+// panicLines: what a PanicModel script asks the model: the outcome of `new d j` when it is the first step,
+// and of the first `reset d j` when the ticker was created as (1000, 1) (the state `resetp` starts from).
+func panicLines(c Case, lines []string) []string {
+	var out []string
+	if len(c.Steps) == 0 || c.Steps[0].Op != "new" {
+		return nil
+	}
+	fresh := c.Steps[0].A == 1000 && c.Steps[0].B == 1
+	for _, l := range lines {
+		f := strings.Fields(l)
+		if len(f) == 4 && f[0] == "new" && !fresh {
+			out = append(out, "newp "+strings.Join(f[1:], " "))
+		}
+		if len(f) == 4 && f[0] == "reset" && fresh {
+			out = append(out, "resetp "+strings.Join(f[1:], " "))
+			break
+		}
+	}
+	return out
 }
 
 // stillFails: the case shows the failure kind in one of a few runs (which ready select arm wins, and
@@ -1490,7 +1520,7 @@ func TestVerif(t *testing.T) {
 			}
 		}
 	}
-	// documented arguments at the int64 boundaries (D20): NewJitterTicker and Reset with each pair, under
+	// documented arguments at the int64 boundaries (D21): NewJitterTicker and Reset with each pair, under
 	// several seeds of math/rand (whether d + r - jitter leaves the int64 range depends on the draw r)
 	reps := 8
 	if env.Thorough() || env.Deep {
@@ -1503,10 +1533,8 @@ func TestVerif(t *testing.T) {
 		}
 		for _, viaReset := range []bool{false, true} {
 			for i := 0; i < reps; i++ {
-				// the model side samples the two ends of the range of draws for large jitter (Model.XTime.randChoices):
-				// sound as long as the script lets no virtual time pass (every timer of a correct ticker is then
-				// still in the future, whatever was drawn)
-				x.do(Case{Kind: "ticker", Steps: extremeTicker(p[0], p[1], viaReset, tail), Seed: seed(), NoModel: tail > 0}, "ticker-extreme")
+				// monitors only, except for the panic outcome (the state-set engine enumerates the draws)
+				x.do(Case{Kind: "ticker", Steps: extremeTicker(p[0], p[1], viaReset, tail), Seed: seed(), NoModel: true, PanicModel: true}, "ticker-extreme")
 			}
 		}
 	}
